@@ -1,13 +1,13 @@
 SPECIFICATION Spec
 CONSTANTS
   Fault = "none"
-  Cfgs <- T5B_Cfgs
+  Cfgs <- T4H_Cfgs
   Soc0s <- SocAll
   Dts <- Dt2
-  Engs <- OnOnly
-  ClsOn <- T5_BelCls
+  Engs <- Bools
+  ClsOn <- T4H_On
   ClsOff <- ClsZero
-  Depth = 5
+  Depth = 4
 INVARIANT L1
 INVARIANT L1s
 INVARIANT L2
@@ -49,5 +49,5 @@ INVARIANT LocoPub
 INVARIANT Ramp
 INVARIANT SocWindow
 INVARIANT PublishedSane
-VIEW View
+INVARIANT Emit
 CHECK_DEADLOCK FALSE
